@@ -15,7 +15,12 @@ META = {
     '(R-fourterm, K1/K2 by computer algebra), and on all three assembly '
     'paths mat[i, j] = bilform(trial_j, test_i) with rows = test (R-index). '
     'Entailment is decided in a linear-inequality fact domain '
-    '(Fourier-Motzkin over exact rationals); nothing is executed.',
+    '(Fourier-Motzkin over exact rationals); nothing is executed.  '
+    'Filters on the trial list are held to the same soundness rule as '
+    'skips; the closed-form dispatcher passes the time end points on '
+    'unchanged (R-translate); element intervals come from the corner '
+    'vertices (R-geometry); the matrix cache key depends on the lists '
+    'actually passed (R-cachekey).',
     'checker_cmd': 'python3-vt -m stbem_static C04 --tier <tier>',
     'trusted_base': [
         'CPython ast', 'linear fact domain (Fourier-Motzkin, exact '
